@@ -143,6 +143,9 @@ class Project(object):
 
         module = None  # type: SourceModule | ImportedModule | None
         if not filename:
+            if name not in sys.modules and name in sys.builtin_module_names:
+                # builtin modules have no file to find
+                __import__(name)
             if name in sys.modules:
                 module = ImportedModule(sys.modules[name])
         else:
